@@ -239,9 +239,18 @@ func checkWireSeq(p *Program, r *Report) {
 		dec := p.MustFunc("(*" + tname + ").decode")
 		vt := p.MustFunc("(*" + tname + ").valType")
 		cfg := func() *simCfg {
-			return &simCfg{Event: wireEvents, Keep: map[string]bool{"builtin:copy": true, "putVarInt": true, "encodeString": true, "(encoding/binary.bigEndian).PutUint16": true},
+			c := &simCfg{Event: wireEvents, Keep: map[string]bool{"builtin:copy": true, "putVarInt": true, "encodeString": true, "(encoding/binary.bigEndian).PutUint16": true},
 				Pure: map[string]bool{"(*LogRecord).IsDeletion": false}, Opaque: map[string]bool{"log.Panicf": true, "(*LogRecord).decodeKey": true},
 				Inline: map[string]bool{"(*LogRecord).IsDeletion": true}, NoInlineDefault: true, NoLoopSamples: true, UniqueMake: true}
+			// helpers of the codec (copy a hash and step over it, ...) are part of it
+			for _, f := range []*ssa.Function{enc, dec} {
+				for _, h := range withHelpers(p, f)[1:] {
+					if k := funcKey(h); !c.Event[k] && !c.Opaque[k] && !c.Keep[k] && h.Parent() == nil && h != enc && h != dec {
+						c.Inline[k] = true
+					}
+				}
+			}
+			return c
 		}
 		ce, _ := runSim(p, enc, cfg(), nil)
 		recvE := mk("param", funcKey(enc)+"."+enc.Params[0].Name(), enc.Params[0].Type())
